@@ -294,6 +294,13 @@ std::filesystem::path path_of_kind(std::string const &k)
          : k == "underloop" ? scratch / "selfloop" / "x"                      // ELOOP in a parent component
          : k == "longpath" ? scratch / std::string(5000, 'p')                 // longer than PATH_MAX
          : k == "missingparent" ? scratch / "nodir" / "x"
+         : k == "weirdname" ? scratch / "we ird\n\xff\xfe"
+         : k == "relfile"  ? std::filesystem::path{"file5"}
+         : k == "reldot"   ? std::filesystem::path{"./file5"}
+         : k == "reldotdot" ? std::filesystem::path{"dir/../file5"}
+         : k == "reldir"   ? std::filesystem::path{"dir2"}
+         : k == "relmissing" ? std::filesystem::path{"verif_c01_nonexistent"}
+         : k == "relunder" ? std::filesystem::path{"file5/../file5"}                   // ENOTDIR although it "normalises" to a file
          : k == "sub"      ? scratch / "dir2" / "sub"
          : k == "trailing" ? scratch / "dir2" / ""                            // "…/dir2/"
          : k == "filetrailing" ? scratch / "file5" / ""                       // "…/file5/": ENOTDIR
@@ -319,6 +326,8 @@ std::string count_range(fcppt::either::object<std::error_code, Range> const &r)
   return "success " + std::to_string(n);
 }
 
+// (Exhausting the file descriptors (RLIMIT_NOFILE) around a call was tried and dropped: UBSan's vptr check validates unknown
+// addresses by writing them into a pipe(), which then fails too and reports bogus "invalid vptr" errors.)
 std::optional<std::string> handle_env(std::vector<std::string> const &t)
 {
   std::string const &op = t[0];
@@ -442,6 +451,13 @@ std::optional<std::string> handle_env(std::vector<std::string> const &t)
       std::ostream o{&b};
       bool const r = fcppt::io::write_chars(o, ptr, data.size());
       return std::string{r ? "1" : "0"} + " s:" + b.written() + " " + stream_bits(o);
+    }
+    if (kind == "devfull")
+    {
+      // a device that accepts no byte: what reaches the device fails, what stays in the stream's buffer does not (yet)
+      std::ofstream o{"/dev/full", std::ios_base::binary};
+      bool const r = fcppt::io::write_chars(o, ptr, data.size());
+      return std::string{r ? "1" : "0"} + " s: " + stream_bits(o);
     }
     if (kind == "nullbuf")
     {
@@ -597,7 +613,7 @@ std::optional<std::string> handle_env(std::vector<std::string> const &t)
   if ((op == "mkdir" || op == "mkdirs") && t.size() == 2)
   {
     bool const fresh = t[1] == "new" || t[1] == "newnested";
-    if (t[1] == "missing" || t[1] == "missingparent") // would change what other operations see
+    if (t[1] == "missing" || t[1] == "missingparent" || t[1] == "relmissing") // would change what other operations see
       return "bad-op";
     std::filesystem::path const root = fresh ? fresh_name("mk_") : std::filesystem::path{};
     std::filesystem::path const p = t[1] == "new" ? root : t[1] == "newnested" ? root / "a" / "b" : path_of_kind(t[1]);
